@@ -112,13 +112,7 @@ func same(what string, got, want []fasta.Fasta) error {
 	return nil
 }
 
-func gz(b []byte) []byte {
-	var buf bytes.Buffer
-	w := gzip.NewWriter(&buf)
-	_, _ = w.Write(b)
-	_ = w.Close()
-	return buf.Bytes()
-}
+func gz(b []byte) []byte { return vk.Gzip(b) }
 
 // bounded runs f under a deadline: a parser that never closes its channel blocks Parse forever.
 func bounded(what string, f func() []fasta.Fasta) ([]fasta.Fasta, error) {
